@@ -59,22 +59,4 @@ theorem parseUnit_rendered (env : Env) (secs : List RSect) (wf : ∀ s ∈ secs,
     have := ih (fun x hx => wf x (by simp [hx])) (addEntries u s.name (eraseItems s.items)) f (by simp at hf ⊢; omega)
     rw [this]; simp [eraseSects]
 
-theorem C03_parse_render (env : Env) (secs : List RSect) (wf : ∀ s ∈ secs, s.WF env) :
-    parse env (renderSects secs) = .ok (eraseSects [] secs) := by
-  unfold parse
-  apply parseUnit_rendered env secs wf
-  have : secs.length ≤ (renderSects secs).length := by
-    induction secs with
-    | nil => simp
-    | cons s secs ih =>
-      have := ih (fun x hx => wf x (by simp [hx]))
-      simp [renderSects, renderSect] at this ⊢; omega
-  omega
-
-/-- two spellings of the same content parse to the same unit -/
-theorem C03_spelling_independent (env : Env) (r₁ r₂ : List RSect)
-    (wf₁ : ∀ s ∈ r₁, s.WF env) (wf₂ : ∀ s ∈ r₂, s.WF env) (h : eraseSects [] r₁ = eraseSects [] r₂) :
-    parse env (renderSects r₁) = parse env (renderSects r₂) := by
-  rw [C03_parse_render env r₁ wf₁, C03_parse_render env r₂ wf₂, h]
-
 end Parse
